@@ -58,6 +58,8 @@ impl<'a, T> Deref for ReadGuard<'a, T> {
 
 impl<'a, T> Drop for ReadGuard<'a, T> {
     fn drop(&mut self) {
+        #[cfg(feature = "verif-hooks")]
+        ::verif::point(::verif::site::HL_R_CLOSE, self.data as *const T as usize, self.lock as *const AtomicUsize as usize);
         // We effectively unlock; Release would be enough.
         self.lock.fetch_sub(1, Ordering::SeqCst);
     }
@@ -73,17 +75,25 @@ impl<'a, T> WriteGuard<'a, T> {
     pub(crate) fn store(&mut self, val: T) {
         // Move to the heap and convert to raw pointer for AtomicPtr.
         let new = Box::into_raw(Box::new(val));
+        #[cfg(feature = "verif-hooks")]
+        ::verif::point(::verif::site::HL_W_ALLOC, new as usize, 0);
 
         self.data = unsafe { &*new };
 
         // We can just put the new value in here safely, we worry only about dropping the old one.
         // Release might (?) be enough, to "upload" the data.
         let old = self.lock.data.swap(new, Ordering::SeqCst);
+        #[cfg(feature = "verif-hooks")]
+        ::verif::point(::verif::site::HL_W_SWAPPED, old as usize, new as usize);
 
         // Now we make sure there's no reader having the old data.
         self.lock.write_barrier();
 
+        #[cfg(feature = "verif-hooks")]
+        ::verif::point(::verif::site::HL_W_FREE, old as usize, 0);
         drop(unsafe { Box::from_raw(old) });
+        #[cfg(feature = "verif-hooks")]
+        ::verif::point(::verif::site::HL_W_FREED, old as usize, 0);
     }
 }
 
@@ -127,9 +137,13 @@ impl<T> HalfLock<T> {
         // that both were 0 at some time. So the actual value doesn't really matter for safety,
         // only the changing improves the performance.
         let gen = self.generation.load(Ordering::SeqCst);
+        #[cfg(feature = "verif-hooks")]
+        ::verif::point(::verif::site::HL_R_GEN, gen, 0);
         let lock = &self.lock[gen % 2];
         // Effectively locking something, acquire should be enough.
         let guard_cnt = lock.fetch_add(1, Ordering::SeqCst);
+        #[cfg(feature = "verif-hooks")]
+        ::verif::point(::verif::site::HL_R_INC, gen, guard_cnt);
 
         // This is to prevent overflowing the counter in some degenerate cases, which could lead to
         // UB (freeing data while still in use). However, as this data structure is used only
@@ -148,6 +162,8 @@ impl<T> HalfLock<T> {
         // Acquire should be enough; we need to "download" the data, paired with the swap on the
         // same pointer.
         let data = self.data.load(Ordering::SeqCst);
+        #[cfg(feature = "verif-hooks")]
+        ::verif::point(::verif::site::HL_R_PTR, data as usize, lock as *const AtomicUsize as usize);
         // Safe:
         // * It did point to valid data when put in.
         // * Protected by lock, so still valid.
@@ -168,13 +184,19 @@ impl<T> HalfLock<T> {
         // writer.
         let mut seen_zero = [false; 2];
         self.update_seen(&mut seen_zero);
+        #[cfg(feature = "verif-hooks")]
+        ::verif::point(::verif::site::HL_B_FIRST, seen_zero[0] as usize, seen_zero[1] as usize);
         // By switching the generation to the other slot, we make sure the currently active starts
         // draining while the other will start filling up.
         self.generation.fetch_add(1, Ordering::SeqCst); // Overflow is fine.
+        #[cfg(feature = "verif-hooks")]
+        ::verif::point(::verif::site::HL_B_FLIP, 0, 0);
 
         let mut iter = 0usize;
         while !seen_zero.iter().all(|s| *s) {
             iter = iter.wrapping_add(1);
+            #[cfg(feature = "verif-hooks")]
+            ::verif::point(::verif::site::HL_B_SPIN, iter, 0);
 
             // Be somewhat less aggressive while looping, switch to the other threads if possible.
             if cfg!(not(miri)) {
@@ -189,6 +211,8 @@ impl<T> HalfLock<T> {
 
             self.update_seen(&mut seen_zero);
         }
+        #[cfg(feature = "verif-hooks")]
+        ::verif::point(::verif::site::HL_B_DONE, 0, 0);
     }
 
     pub(crate) fn write(&self) -> WriteGuard<T> {
@@ -199,6 +223,8 @@ impl<T> HalfLock<T> {
             .write_mutex
             .lock()
             .unwrap_or_else(PoisonError::into_inner);
+        #[cfg(feature = "verif-hooks")]
+        ::verif::point(::verif::site::HL_W_LOCKED, 0, 0);
 
         // Relaxed should be enough, as we are under the same mutex that was used to get the data
         // in.
